@@ -1,12 +1,13 @@
 SPECIFICATION Spec
 CONSTANTS
   Variant = "repaired"
-  CompInits <- CompInitsAll
+  CompInits <- CompInitsQ
   LocoInits <- None
   LoadFiles <- None
   CompOps <- CompOpsAll
   LocoOps <- LocoOpsAll
   Targets <- One
+  Near = TRUE
   MaxOps = 4
 INVARIANT ComponentConsistent
 INVARIANT LocoConsistent
